@@ -289,9 +289,13 @@ def paramsFromIos (o : OStream) : Params × OStream :=
      width := o.width },                                                                          -- :111
    { o with width := 0 })                                                                         -- :114
 
-/-- `__gmp_doprnt_integer_ostream (o, p, s)` (osdoprnti.cc:40-58): `p->prec = -1`, format, write -/
+/-- `gmp_allocated_string t (result)` (gmp-impl.h:4562-4575): `len = strlen (str)`, so what is written stops at the
+    first NUL of the formatted text (only a NUL fill character can put one there) -/
+def cstr (t : List Char) : List Char := t.takeWhile (· ≠ '\x00')
+
+/-- `__gmp_doprnt_integer_ostream (o, p, s)` (osdoprnti.cc:40-58): `p->prec = -1`, format, `o.write (t.str, t.len)` -/
 def doprntIntegerOstream (o : OStream) (p : Params) (s : List Char) : OStream :=
-  o.write (callsBytes (doprntInteger { p with prec := -1 } s))
+  o.write (cstr (callsBytes (doprntInteger { p with prec := -1 } s)))
 
 /-- `operator<< (ostream &o, mpz_srcptr z)` (osmpz.cc:31-38) -/
 def insertZ (o : OStream) (z : Int) : OStream :=
@@ -307,7 +311,7 @@ def insertQ (o : OStream) (n d : Int) : OStream :=
     formats of printf, not the "@%c%02d" of a hex stream, and no octal digits; `none` for those streams. -/
 def insertF (o : OStream) (fprec : Nat) (neg : Bool) (limbs : List Nat) (fexp : Int) : Option OStream :=
   let (p, o) := paramsFromIos o
-  if p.base = 10 then some (o.write (callsBytes (doprntMpf p fprec neg limbs fexp))) else none
+  if p.base = 10 then some (o.write (cstr (callsBytes (doprntMpf p fprec neg limbs fexp)))) else none
 
 /-! ## what a reader of the manual expects (used by the theorems) -/
 
